@@ -28,7 +28,7 @@ register('C06', world='w1:W1World', quick=18000, thorough=300000, level='explora
          assumptions=W1_ASSUME + ["'loop-free' for path-with-hops is the library's own notion: the sub-graph induced by the path's nodes has no cycle"])
 register('C01', world='w1:W1World', level='exploration',
          parts=[{'world': 'w1:W1World', 'quick': 12000, 'thorough': 200000},
-                {'world': 'w2:W2World', 'quick': 900, 'thorough': 40000}],
+                {'world': 'w2:W2World', 'quick': 900, 'thorough': 15000}],
          rule="one evaluation = one seeded W1 run with a round-trip-heavy mix: graphs built by the history are serialized "
               "(GraphML / JSON node-link) from both stores, the text is parsed independently (lxml/json) and compared with "
               "PGModel, re-imported through one of the four entry points (same or other store, id kept or reassigned), "
@@ -70,19 +70,19 @@ W2_RULE = ("one evaluation = one seeded W2 run: one user session drives an Exper
            "3-32 calls drawn from the documented building/removing/property calls with a per-run random mix (swarm), valid and "
            "deliberately invalid arguments, library-generated and caller-supplied ids, retained or fresh handles. After every "
            "call the model graph is read white-box from the store. %s Distinct = distinct event-log digest.")
-register('C07', world='w2:W2World', quick=1500, thorough=100000, level='exploration',
+register('C07', world='w2:W2World', quick=1500, thorough=40000, level='exploration',
          rule=W2_RULE % "C07 oracles after every call: the published rules (vocabularies pinned in the checker), one owner per "
                         "component/interface/service, links touch only interfaces, every service port has one peer, names unique "
                         "per scope, every read-only view lists exactly the model's elements (sampled every 1-8 calls, after every "
                         "removal and at run end) and refuses mutation. Non-trivial: >=1 call changed the model.",
          assumptions=W2_ASSUME)
-register('C08', world='w2:W2World', quick=1800, thorough=100000, level='exploration',
+register('C08', world='w2:W2World', quick=1800, thorough=40000, level='exploration',
          rule=W2_RULE % "C08 oracle on every removal/disconnect/unpeer/prune of an existing element: the post-state equals the "
                         "pre-state minus an independently computed owned closure and peering artefacts (service-side port + link; "
                         "a link goes only when left with < 2 ends), everything else bit-identical; handles the call went through "
                         "(and that agreed with the model before) list what a fresh lookup lists. Non-trivial: >=1 call changed the model.",
          assumptions=W2_ASSUME)
-register('C09', world='w2:W2World', quick=1400, thorough=100000, level='fault_enumeration',
+register('C09', world='w2:W2World', quick=1400, thorough=40000, level='fault_enumeration',
          rule=W2_RULE % "C09: every call that raises must leave the abstract state identical. Besides naturally failing calls of "
                         "the workload, 'failing' steps draw from a catalogue of ~35 failing-call templates (duplicate name/id per "
                         "element class, rejected property value at each position among good ones, the i-th of n interfaces bad for "
@@ -90,7 +90,7 @@ register('C09', world='w2:W2World', quick=1400, thorough=100000, level='fault_en
                         "collisions); 35% of them enumerate the WHOLE applicable catalogue at that state, one call after another. "
                         "Non-trivial: >=1 call raised.",
          assumptions=W2_ASSUME + ["fault enumeration is complete per sampled state over the template x position catalogue; the states are sampled"])
-register('C02', world='w2:W2World', quick=1800, thorough=100000, level='exploration',
+register('C02', world='w2:W2World', quick=1800, thorough=40000, level='exploration',
          rule=W2_RULE % "C02 oracles: set_property/set_properties/property-style assignment over every name of list_properties() "
                         "that has a value generator (values per name: capacities, labels, hints, reservation/structural info, "
                         "gateway, ERO/path info, flags, tags, JSON data, addresses, enums, image ref/type pair) reads back equal "
@@ -101,7 +101,7 @@ register('C02', world='w2:W2World', quick=1800, thorough=100000, level='explorat
                                   "zero/false/empty field values of the value classes belong to C03 and are not generated",
                                   "names not exercised through set_property and why: see NOT_GENERATED in simfim/w2_props.py"])
 
-register('C10', world='w2:W2World', quick=1800, thorough=100000, level='exploration',
+register('C10', world='w2:W2World', quick=1800, thorough=40000, level='exploration',
          rule=W2_RULE % "C10 oracle: validate() is issued at arbitrary points of experiment-topology histories whose mix is biased to "
                         "service creation (all slice service types x 0-4 interfaces x site placements x interface kinds) and to "
                         "setting the constrained properties; accept/reject is compared two-sidedly with a reference evaluated over "
@@ -110,7 +110,7 @@ register('C10', world='w2:W2World', quick=1800, thorough=100000, level='explorat
                         "Non-trivial: >=1 call changed the model.",
          assumptions=W2_ASSUME + ["the property is a function of the topology with one side effect; the simulation interleaves it with edits",
                                   "num_instances is NO_LIMIT for every type in the pinned table, so the per-site instance rule is vacuous"])
-register('C11', world='w2:W2World', quick=1800, thorough=100000, level='exploration',
+register('C11', world='w2:W2World', quick=1800, thorough=40000, level='exploration',
          rule=W2_RULE % "C11 oracles: attributes collected from the topology object, and from its serialized model when the slice "
                         "validates, equal an order-free tally of the abstract state (sets for de-duplicated attributes, multisets "
                         "for per-resource ones); the PDP request lists exactly those attributes with the right category/type; the "
@@ -119,7 +119,7 @@ register('C11', world='w2:W2World', quick=1800, thorough=100000, level='explorat
                         "Non-trivial: >=1 call changed the model.",
          assumptions=W2_ASSUME + ["'mirrored port inside the slice' is the library's definition: the port name is a local_name label of the first peer of a connected interface of a slice node",
                                   "'sites used' are the sites of non-facility nodes and the sites recorded on services (what the collector documents)"])
-register('C17', world='w2:W2World', quick=1800, thorough=100000, level='exploration',
+register('C17', world='w2:W2World', quick=1800, thorough=40000, level='exploration',
          rule=W2_RULE % "C17 oracles: a checkpoint (clone of the topology graph) is taken early; later, slivers of nodes / services / "
                         "dedicated ports present in both versions are diffed in both directions and compared with a reference diff "
                         "computed by subtracting the two abstract states (added/removed by name, LABELS/CAPACITIES/USER_DATA/"
@@ -139,14 +139,14 @@ W3_RULE = ("one evaluation = one seeded W3 run: 1-3 site aggregates + one networ
            "exception at the k-th backend call of the merge followed by rollback and re-delivery), duplicate, drop, re-send, "
            "aggregate offline (unmerge) / back (new advertisement, new id), explicit snapshot / rollback; at the end every "
            "message still in flight is delivered fault-free within 2 x #messages steps. %s Distinct = distinct event-log digest.")
-register('C13', world='w3:W3World', quick=1500, thorough=60000, level='exploration',
+register('C13', world='w3:W3World', quick=1500, thorough=40000, level='exploration',
          rule=W3_RULE % "C13 oracles on every partition produced: one model per delegation id; every node delegated to the id present "
                         "with exactly its own entries; no entry of another id anywhere; sub-model (ids, all other properties, every "
                         "original edge between kept nodes and no other edge); each kept interface keeps link, peers, owning service "
                         "and its owner; all stitching elements present; the aggregate model untouched; re-keying changes only the "
                         "key. Non-trivial: >=1 partition checked.",
          assumptions=W3_ASSUME + ["the property is a function of the annotated aggregate model; the simulation contributes the generated models and the place of partitioning inside the federation workflow"])
-register('C14', world='w3:W3World', quick=1500, thorough=60000, level='exploration',
+register('C14', world='w3:W3World', quick=1500, thorough=40000, level='exploration',
          rule=W3_RULE % "C14 oracles after every delivered event: combined model = order-free union of the advertisements currently "
                         "merged (elements once, adm_graph_ids = contributing set, delegations keyed by contributing model id, union "
                         "of connections, no property no source has); sources untouched; unmerge = expectation without it; rollback "
